@@ -41,13 +41,14 @@ var props = []*PropDef{
 	},
 	{
 		ID:     "C02",
+		Funcs:  []string{"datamatrix.addPadding"},
 		Unwind: []*Unwinder{unwDM, unwSelect},
 		Tables: []string{"dm/codeSizes", "gf/fields"},
 		Harness: []Harness{
 			{Pkg: "datamatrix", File: "c02_dm_test.go", Run: "^TestVerifC02$", Bound: boundedNote + "full round trip through the independent ISO 16022 reader dmspec.Decode (ASCII encodation, 253-state padding, RS validity): every codeword count 0..1561, capacity +-2 of all 24 sizes, all strings of length <= 4 over 9 bytes, seeded random contents"},
 		},
-		Assumptions: []string{asmBitlist, asmRS, "RS Encode is abstracted to its shape contract while unwinding calcECC", "encodeText/addPadding are NOT under contract yet: the ASCII decode-back clause rests on the bounded stand-in"},
-		Note:        "[C] for all 24 sizes read from the current codeSizes table, with symbolic codewords: datamatrix.render (SetValues incl. the four corner cases and the fixed pattern, Merge with finder/clock tracks) equals the independent Annex F placement + symbol layout module by module; the explicit panic(\"Field already occupied\") is unreachable; calcECC hands block b exactly data[b], data[b+n], ... to the Reed-Solomon encoder (GF(256)/301, first root alpha^1, [T]) and stores the check words at the ISO interleaved positions without touching the caller's slice.",
+		Assumptions: []string{asmBitlist, asmRS, "RS Encode is abstracted to its shape contract while unwinding calcECC", "encodeText is NOT under a functional contract yet: the ASCII decode-back clause rests on the bounded stand-in"},
+		Note:        "[C] for all 24 sizes read from the current codeSizes table, with symbolic codewords: datamatrix.render (SetValues incl. the four corner cases and the fixed pattern, Merge with finder/clock tracks) equals the independent Annex F placement + symbol layout module by module; the explicit panic(\"Field already occupied\") is unreachable; calcECC hands block b exactly data[b], data[b+n], ... to the Reed-Solomon encoder (GF(256)/301, first root alpha^1, [T]) and stores the check words at the ISO interleaved positions without touching the caller's slice. [P] addPadding: for every input and every target count the result keeps the data codewords, then carries 129 and the ISO 16022 253-state randomised pads at every further position (loop invariants, unbounded).",
 	},
 	{
 		ID:     "C03",
@@ -62,7 +63,7 @@ var props = []*PropDef{
 	{
 		ID:     "C04",
 		Unwind: []*Unwinder{unwPDF},
-		Tables: []string{"pdf417/tables", "pdf417/textmaps"},
+		Tables: []string{"pdf417/tables", "pdf417/textmaps", "pdf417/pattern-values-pinned"},
 		Harness: []Harness{
 			{Pkg: "pdf417", File: "c04_pdf_test.go", Run: "^TestVerifC04$", Bound: boundedNote + "full round trip through the independent ISO 15438 reader pdfspec.Decode (text/byte/numeric compaction with all latches and shifts, RS over GF(929)): punctuation-pad family, all strings of length <= 4 over 8 symbols, digit/byte run boundaries, capacity limits, seeded random contents"},
 		},
@@ -157,6 +158,9 @@ var props = []*PropDef{
 		ID:     "C11",
 		Funcs:  base1D,
 		Unwind: []*Unwinder{unwEAN, unwAztec, unwDM, unwPDF, unwQR},
+		// of the aztec family only the obligations about the result object's accessors belong here
+		// (the empty-payload defect F6 shows up in the mode message: C03/C10)
+		Only: map[string]string{"aztec": `/(dynamic-type|size|color|content-snapshot|modules|layout|result-xor-error[#0-9]*)$`},
 		Harness: []Harness{
 			{Pkg: "codabar", File: "c11_render_test.go", Run: "^TestVerifC11$", Bound: boundedNote + "every Encode/EncodeWithColor entry point x 5 colour schemes: bounds, pixel colours by value, ColorModel/ColorScheme, pattern independent of the scheme, Metadata, Content"},
 		},
@@ -186,13 +190,14 @@ var props = []*PropDef{
 			{Pkg: "aztec", File: "c03_aztec_test.go", Run: "^TestVerifC13Aztec$", Bound: boundedNote + "every smaller explicit size is refused"},
 			{Pkg: "pdf417", File: "c04_pdf_test.go", Run: "^TestVerifC13PDF$", Bound: boundedNote},
 		},
-		Assumptions: []string{"the search loops of qr.findSmallestVersionInfo, datamatrix.EncodeWithColor and aztec.EncodeWithColor are not under contract yet: bounded stand-in at every capacity boundary"},
-		Note:        "PDF417: [C] for every unwound (n, level): padding < one row and 2..30 rows/columns. QR/DataMatrix: [T] tables ordered with strictly increasing capacity (so first fit = smallest); the first-fit loops themselves and Aztec minimality: bounded.",
+		Assumptions: []string{"Aztec minimality of the automatic layer search is not proved: bounded stand-in (every smaller explicit size is refused)"},
+		Note:        "PDF417: [C] for every unwound (n, level): padding < one row and 2..30 rows/columns. QR/DataMatrix: [T] tables ordered with strictly increasing capacity and [C select] the search loops of qr.findSmallestVersionInfo (symbolic bit count and level) and datamatrix.EncodeWithColor (symbolic codeword count) return the FIRST table row that fits and an error iff none does, for all inputs; first fit + ordering = smallest. Aztec: bounded.",
 	},
 	{
 		ID:     "C14",
 		Funcs:  append([]string{"barcode.(*intCSscaledBC).CheckSum", "barcode.newScaledBC"}, base1D...),
 		Unwind: []*Unwinder{unwEAN},
+		Tables: []string{"code128/tables", "code39/tables", "code93/tables"},
 		Harness: []Harness{
 			{Pkg: "code128", File: "c05_code128_test.go", Run: "^TestVerifC14Code128$", Bound: boundedNote + "CheckSum() == mod-103 value == drawn check symbol, unchanged by Scale"},
 			{Pkg: "code39", File: "c07_code39_test.go", Run: "^TestVerifC14Code39$", Bound: boundedNote + "CheckSum() == mod-43 value in all four configurations, unchanged by Scale"},
@@ -204,13 +209,15 @@ var props = []*PropDef{
 	{
 		ID:     "C15",
 		Level:  "other",
-		Unwind: []*Unwinder{unwDM},
+		Unwind: []*Unwinder{unwDM, unwAztec},
+		Only:   map[string]string{"aztec": `/content-snapshot$|/frame`},
+		Tables: []string{"code93/tables"},
 		Funcs:  []string{"utils.NewBitList", "utils.(*BitList).GetBytes"},
 		Harness: []Harness{
 			{Pkg: "ean", File: "c15_pure_test.go", Run: "^TestVerifC15$", Bound: boundedNote + "same arguments encoded repeatedly between other encodes of varying RS degree and in fresh processes give identical pixels and accessors; inputs unmodified; result is a snapshot"},
 		},
-		Assumptions: []string{"frame conditions (modifies nothing pre-existing) are discharged only for the functions under contract and the unwound families; cache neutrality of getPolynomial and map-order independence of getChecksum are bounded"},
-		Note:        "frame obligations: every store executed by the functions under contract / unwound families targets an object allocated during the call or a location of the modifies clause (e.g. calcECC does not write the caller's slice [C]); determinism across histories and processes: bounded.",
+		Assumptions: []string{"frame conditions (modifies nothing pre-existing) are discharged only for the functions under contract and the unwound families; cache neutrality of getPolynomial is bounded; map-order independence of code93.getChecksum rests on the table lemma that encodeTable values are pairwise distinct [T]"},
+		Note:        "frame obligations: every store executed by the functions under contract / unwound families targets an object allocated during the call or a location of the modifies clause (e.g. calcECC does not write the caller's slice [C]); aztec: the stored payload is a fresh copy of the input for every one of the 36 sizes [C content-snapshot]; determinism across histories and processes: bounded.",
 	},
 	{
 		ID:     "C17",
